@@ -64,6 +64,7 @@ func c13Check(text []byte, f symFlags) {
 
 // Harness_C13text: arg = length*c13Buckets + bucket of the first byte.
 func Harness_C13text(arg int) {
+	symSkipStatic = true
 	n, b := arg/c13Buckets, arg%c13Buckets
 	text := symBytes("g", n)
 	if n == 0 {
@@ -78,6 +79,7 @@ func Harness_C13text(arg int) {
 // Harness_C13mut: arg = grammar*c13MaxLen + position; c13Width symbolic bytes
 // replace the bytes at that position.
 func Harness_C13mut(arg int) {
+	symSkipStatic = true
 	gi, pos := arg/c13MaxLen, arg%c13MaxLen
 	src := c13Grammars[gi]
 	symAssume(pos+c13Width <= len(src))
@@ -94,6 +96,7 @@ func Harness_C13mut(arg int) {
 // tool must terminate on it like on any other text; the nullable analysis
 // visits a referenced rule once per reference, i.e. 2^d times (finding F18).
 func Harness_C13chain(d int) {
+	symSkipStatic = true
 	text := []byte("{\npackage p\n}\n")
 	digits := func(n int) []byte {
 		if n < 10 {
@@ -124,6 +127,7 @@ func Harness_C13chain(d int) {
 const c13CodeAlphabet = "\n\r \ta{}\"'`/*\\;"
 
 func Harness_C13code(arg int) {
+	symSkipStatic = true
 	form, n := arg/4, arg%4
 	body := symBytes("k", n)
 	for _, b := range body {
